@@ -19,6 +19,10 @@ Oracle (from the statement):
 Sensitivity (quick tier, scratch copies of /repo/tornado; all caught):
   CL check `>`→`>=` ; chunked `total_size >`→`>=` ; chunked total accumulated after delivery ;
   gzip delegate without size check ; _check_max_bytes `>`→`>=` ; set_max_body_size made sticky (class attr).
+  Seeded (round 8): header re-read after two empty lines without max_bytes -> missed until >= 2 leading empty lines were
+  generated in front of the request (pre_blank).  Seeded (round 9): read_until limits counting only bytes that arrive
+  after the read starts (bytes already buffered from an earlier read are free) -> missed until a small request was
+  pipelined in front of the oversize one (lead).
 """
 import gzip
 import io
@@ -87,13 +91,16 @@ def case_s(draw):
     leading_blank = draw(st.sampled_from([b"", b"", b"\r\n"]))
     # two or more empty lines in front of the request (accepting or rejecting them is the reader's choice, but they
     # must never switch the header limit off); not counted in the header block
+    # an earlier small request pipelined in front (same segment when the segmentation allows): its body read pulls the
+    # main request's header block into the read buffer before the limited header read starts
+    lead = draw(st.sampled_from([False, False, True]))
     pre_blank = draw(st.sampled_from([b"", b"", b"", b"", b"\r\n\r\n", b"\n\n", b"\r\n\r\n\r\n", b"\r\n\n"]))
     gz_variant = draw(st.sampled_from(["plain", "plain", "plain", "multi_member", "truncated"]))
     noise = draw(st.binary(min_size=16, max_size=64))
     return dict(L=L, M=M, B=B, override=override, chunk_size=chunk_size, framing=framing, decompress=decompress,
                 size_rel=size_rel, hdr_rel=hdr_rel, split=split, split_mode=split_mode, fill=fill,
                 incompressible=incompressible, follow_rel=follow_rel, segs=segs, leading_blank=leading_blank,
-                pre_blank=pre_blank, gz_variant=gz_variant, noise=noise)
+                lead=lead, pre_blank=pre_blank, gz_variant=gz_variant, noise=noise)
 
 
 def make_body(n, fill, incompressible, noise):
@@ -295,8 +302,13 @@ def run_case(ctx, case):
             exp["verdict"] = "multi_blank_either"
         else:
             exp["verdict"] = "multi_blank_either" if case["hdr_rel"] != "2L" else "header_over"
+    lead = bool(case.get("lead")) and not pre_blank and exp["base_lim"] >= 3 and (exp["Leff"] is None or exp["Leff"] >= 64)
+    if lead:
+        data = b"POST /lead HTTP/1.1\r\nHost: x\r\nContent-Length: 3\r\n\r\nabc" + data
     records, wire, closed, logs = run_server(case, data)
     labels = set()
+    if lead:
+        labels.add("lead_request_pipelined_in_front")
     if pre_blank:
         labels.add("two_or_more_leading_blank_lines")
     info = {"limits": {k: case[k] for k in ("L", "M", "B", "override", "chunk_size", "decompress")},
@@ -315,8 +327,15 @@ def run_case(ctx, case):
         if r["finish"] + r["close"] > 1 or r["finish"] > 1:
             ctx.fail("C04.finish_close_not_exclusive", dict(info, path=r["path"]))
     try:
-        resps = httpref.parse_responses(wire, ["POST"] * 3, closed=closed)
+        resps = httpref.parse_responses(wire, ["POST"] * 4, closed=closed)
         codes = [r.code for r in resps]
+        if lead:
+            leadrec = [r for r in records if r["path"] == "/lead"]
+            lead_ok = True
+            if lead_ok and (len(leadrec) != 1 or leadrec[0]["finish"] != 1 or codes[:1] != [200]):
+                ctx.fail("C04.lead_request_within_limits_disturbed", dict(info, codes=codes))
+            if lead_ok:
+                codes = codes[1:]
     except httpref.RefError as e:
         ctx.fail("C04.server_output_not_well_framed", dict(info, err=str(e), wire=wire[-120:]))
         codes = []
